@@ -198,3 +198,67 @@ RINGSPECS = {
     "fe_invert_chain": dict(prop=["C12", "C15"], fn=chain(r"^fn fe::<impl at src/curve25519/fe/mod\.rs:[^>]*>::invert\(", P - 2, "invert"), desc="Fe::invert == z^(p-2)"),
     "fe_pow25523_chain": dict(prop=["C14", "C15"], fn=chain(r"^fn fe::<impl at src/curve25519/fe/mod\.rs:[^>]*>::pow25523\(", (P - 5) // 8, "pow25523"), desc="Fe::pow25523 == z^((p-5)/8)"),
 }
+
+
+# ------------------------------------------------------------------------------------------------ precomputed tables (ground obligations)
+def _ed_add(P1, P2):
+    (x1, y1), (x2, y2) = P1, P2
+    m = D_CONST * x1 * x2 * y1 * y2 % P
+    x3 = (x1 * y2 + y1 * x2) * pow(1 + m, P - 2, P) % P
+    y3 = (y1 * y2 + x1 * x2) * pow(1 - m, P - 2, P) % P
+    return (x3, y3)
+
+
+def _ed_mul(k, Pt):
+    R0 = (0, 1)
+    while k:
+        if k & 1:
+            R0 = _ed_add(R0, Pt)
+        Pt = _ed_add(Pt, Pt)
+        k >>= 1
+    return R0
+
+
+def _basepoint():
+    y = 4 * pow(5, P - 2, P) % P
+    u, v = (y * y - 1) % P, (D_CONST * y * y + 1) % P
+    x = pow(u * pow(v, P - 2, P) % P, (P + 3) // 8, P)
+    if (x * x - u * pow(v, P - 2, P)) % P != 0:
+        x = x * pow(2, (P - 1) // 4, P) % P
+    if x & 1:
+        x = P - x
+    return (x, y)
+
+
+def precomp_tables(I, R):
+    """every entry of GE_BASE / BI is the multiple of the base point it stands for (RFC 8032 base point, independent big-integer Edwards arithmetic):
+         GE_BASE[j][k] = (k+1) * 256^j * B     BI[k] = (2k+1) * B     stored as (y+x, y-x, 2dxy).  Ground (closed) equalities."""
+    from field import limbs_value
+    from interp import IntV
+    from poly import DP
+    cfg = R.cfg
+    B = _basepoint()
+    def chk(entry, pt, what):
+        x, y = pt
+        want = [(y + x) % P, (y - x) % P, 2 * D_CONST * x * y % P]
+        for i, nm in enumerate(("y_plus_x", "y_minus_x", "xy2d")):
+            got = limbs_value(AggV([entry.f[i].f[0]]), cfg) % P
+            R.equal(DP.const(got), DP.const(want[i]), "%s.%s" % (what, nm))
+    ge_base = I.named_const("curve25519::fe::%s::precomp::GE_BASE" % cfg)
+    row = B
+    for j in range(32):
+        pt = row
+        for k in range(8):
+            chk(ge_base.f[j].f[k], pt, "GE_BASE[%d][%d] == %d*256^%d*B" % (j, k, k + 1, j))
+            pt = _ed_add(pt, row)
+        for _ in range(8):
+            row = _ed_add(row, row)
+    bi = I.named_const("curve25519::fe::%s::precomp::BI" % cfg)
+    b2 = _ed_add(B, B)
+    pt = B
+    for k in range(8):
+        chk(bi.f[k], pt, "BI[%d] == %d*B" % (k, 2 * k + 1))
+        pt = _ed_add(pt, b2)
+
+
+RINGSPECS["precomp_tables"] = dict(prop=["C15", "C13", "C17"], fn=precomp_tables, desc="all 32x8 + 8 precomputed table entries are the stated multiples of B (ground equalities, independent Edwards arithmetic)")
